@@ -286,7 +286,8 @@ Built(e) ==
                   /\ (balanced \/ (stale /\ ~e.unsafe) => /\ Obl("C06", sc, <<shape, stale, Len(vks), Len(boots), Len(GetK(body,2).arg)>>)
                                   /\ Chk(Geq(fee, minfee), "C06", "Built/fee-below-minimum", sc,
                                          [fee |-> ToBE(fee, 0), min |-> ToBE(minfee, 0), size |-> size, vkeys |-> Len(vks), boots |-> Len(boots), unsafe |-> e.unsafe]))
-                  /\ Chk(e.unsafe \/ size <= pp.maxtx, "C07", "Built/transaction-too-large", sc, [size |-> size])
+                  \* (every build that returns a transaction - also the non-validating build_tx_unsafe - goes through the size check)
+                  /\ Chk(size <= pp.maxtx, "C07", "Built/transaction-too-large" \o (IF e.unsafe THEN "/non-validating-build" ELSE ""), sc, [size |-> size])
                   \* ---- C18 size prediction: signed size <= full_size < signed size + one key witness (101 bytes)
                   /\ (Has(e.full_size, "ok") /\ balanced =>
                         /\ Obl("C18", sc, <<shape, Len(vks), Len(boots)>>)
